@@ -91,7 +91,7 @@ func (m *memResolver) register(kid string, pub crypto.PublicKey) bool {
 
 // newVerifier wires the real verifier (real signature verifier, real DIDKeyResolver, real JSON-LD loader, real trust
 // configuration and status-list component) over the in-memory DID documents; nothing is revoked.
-func newVerifier(t *testing.T, m *memResolver, loader jsonld.JSONLD) verifier.Verifier {
+func newVerifier(t *testing.T, m resolver.DIDResolver, loader jsonld.JSONLD) verifier.Verifier {
 	ctrl := gomock.NewController(t)
 	store := verifier.NewMockStore(ctrl)
 	store.EXPECT().GetRevocations(gomock.Any()).Return(nil, verifier.ErrNotFound).AnyTimes()
